@@ -214,6 +214,9 @@ func (r *Run) Violate(key, what string, replay any) {
 	}
 	v := Violation{Key: key, What: what, Replay: replay}
 	dir := filepath.Join(Root(), "violations", r.Prop)
+	if d := os.Getenv("VERIF_VIOLATIONS"); d != "" {
+		dir = filepath.Join(d, r.Prop)
+	}
 	os.MkdirAll(dir, 0o777)
 	v.Path = filepath.Join(dir, Hash(key)+".json")
 	data, _ := json.MarshalIndent(map[string]any{
@@ -240,7 +243,7 @@ func (r *Run) Violations() int {
 }
 
 // Finish writes the evidence file and returns the process exit code:
-// 0 held, 1 violated, 2 inconclusive.
+// 0 held, 1 violated, 5 inconclusive (2 is what a crashing Go runtime exits with).
 func (r *Run) Finish() int {
 	r.mu.Lock()
 	defer r.mu.Unlock()
@@ -278,7 +281,7 @@ func (r *Run) Finish() int {
 	if len(r.violations) > 0 {
 		verdict, code = "violated", 1
 	} else if len(r.inconcl) > 0 {
-		verdict, code = "inconclusive", 2
+		verdict, code = "inconclusive", 5
 	}
 	cov["verdict"] = verdict
 	if len(r.inconcl) > 0 {
